@@ -2,7 +2,7 @@ import StepModel.AttrNull
 /-! Line-protocol driver for the C15 model.
     request : `read <strict 0|1> | <inst> | <inst> …`
               inst  := `S <part>` | `X <part> ; <part> ; …`      (parts of a complex instance in the writer's order)
-              part  := (<KIND>:<optional 0|1>:<derived 0|1>:<Type() is REFERENCE_TYPE 0|1>:<tok>)*
+              part  := (<KIND>:<optional 0|1>:<derived 0|1>:<Type() is REFERENCE_TYPE 0|1>:<redeclared position 0|1>:<tok>)*
                                                              tok := M1 (`$`) | M0 (nothing) | ST (`*`) | L<SEV>
     reply   : `F sev=<file severity> exit=<p21read exit> | <instance severity>/<state>/<part>.<pos>=<value words>,… | …`
               (values are listed for the positions whose token was M0/M1)
@@ -22,13 +22,15 @@ def parseTok (s : String) : Option Tok :=
 
 def parseSlot (w : String) : Option (AttrD × Tok) :=
   match w.splitOn ":" with
-  | [k, o, d, r, t] => do
+  | [k, o, d, r, f, t] => do
+    let b := fun (x : String) => if x = "1" then some true else if x = "0" then some false else none
     let k ← Kind.ofName k
-    let o ← if o = "1" then some true else if o = "0" then some false else none
-    let d ← if d = "1" then some true else if d = "0" then some false else none
-    let r ← if r = "1" then some true else if r = "0" then some false else none
+    let o ← b o
+    let d ← b d
+    let r ← b r
+    let f ← b f
     let t ← parseTok t
-    pure (⟨k, o, d, r⟩, t)
+    pure (⟨k, o, d, r, f⟩, t)
   | _ => none
 
 def parsePart (ws : List String) : Option (List AttrD × List Tok) := do
